@@ -7,8 +7,8 @@ from vt import core, ref as R, build as B, sat
 REF_LIMIT = {'quick': 250, 'thorough': 1000}
 # designs per stratum in a quick run (stratified over shape classes, see gen.thin); thorough runs take whole strata
 # cheap checks take (nearly) whole strata even in a quick run
-QUICK_CAPS_BIG = {'S3s': 200, 'S1p': 400, 'S1xa': 150, 'S1': 900, 'S1x': 250, 'S2': 550, 'S3': 400, 'S4': 170, 'S5': 190, 'S6': 50, 'S9': 450}
-QUICK_CAPS_MID = {'S1p': 200, 'S1xa': 100, 'S1': 450, 'S1x': 120, 'S2': 300, 'S3': 250, 'S4': 120, 'S5': 140, 'S6': 50, 'S9': 300}
+QUICK_CAPS_BIG = {'S3s': 200, 'S1p': 400, 'S1xa': 150, 'S1': 900, 'S1x': 250, 'S2': 550, 'S3': 700, 'S4': 260, 'S5': 220, 'S6': 120, 'S9': 450}
+QUICK_CAPS_MID = {'S1p': 200, 'S1xa': 100, 'S1': 450, 'S1x': 120, 'S2': 300, 'S3': 400, 'S4': 180, 'S5': 140, 'S6': 100, 'S9': 300}
 QUICK_CAPS = {'S1p': 120, 'S1xa': 60, 'S1': 220, 'S1x': 60, 'S2': 160, 'S3': 200, 'S4': 90, 'S5': 80, 'S6': 46, 'S9': 200}
 
 
